@@ -9,12 +9,20 @@
 
   `C19_manager_isolated_of_safe` states, per layer, which copy the code must make (or else what strategies must not
   do); the source flags regenerated on every run (`Mode.current`) satisfy all of them under pandas copy-on-write
-  (always on from pandas 3, the installed version): `C19_manager_isolated` is the full statement.  For pandas 2
+  (always on from pandas 3, the installed version): `C19_manager_isolated_stateless` is the full statement for backtests
+  that neither read nor write process-wide state (the `Strat` layer has no slot for it); `C19_manager_isolated` in
+  `Proofs/C19/Process.lean` is the statement with the process state `G` threaded through the process / the workers and
+  the explicit hypothesis `GIntact`, of which this one is the corollary `C19_stateless_backtests_isolated`.  For pandas 2
   without copy-on-write the statement needs the hypothesis that no strategy overwrites frame values in place
   (`C19_manager_isolated_no_cow_partial`), and `C19_fails_without_cow_when_data_is_overwritten` is the witness that it
   is needed.  Each copy is shown to be needed by a witness (`C19_fails_when_…`): the four repaired defects (markets
   shared; markets copied one by one; frame shared; nested cells shared) and the two seeded regressions
   (`get_new_order_list` without deep copy; `set_price` adopting all-Decimal frames).
+
+  Scope of the layer `N` under `cellsCopied = true`: objects nested in cells of columns that hold at least one list, dict
+  or set cell (what `_own_frame` deep-copies; see `Mode.cellsCopied`).  Frames with mutable cells of other classes only
+  are the case `cellsCopied = false`: `C19_order_list_copy_partial` (needs `CellsIntact`) and the witness
+  `C19_fails_when_nested_cells_are_shared`.
 
   Strategies whose backtest ends in an exception: `Proofs/C19/Failure.lean` (the theorems here are its special case
   "nobody fails", `C19_without_failures_same_as_plain_manager`).
@@ -229,12 +237,13 @@ theorem C19_manager_isolated_of_safe (env : Env M P) (md : Mode) (threads cpu : 
     | nil => rfl
     | cons s rest => exact C19_pooled_isolated env md cfg d assign _ (ha (by simp)) hd 0 _ (fun _ => rfl)
 
-/-- **`BacktestManager.run()`, full statement** (pandas copy-on-write): whatever the strategies do — to the markets, to
+/-- **`BacktestManager.run()`, backtests without process-wide state** (pandas copy-on-write; with process state:
+    `C19_manager_isolated`, `Proofs/C19/Process.lean`): whatever the strategies do — to the markets, to
     the columns, values and nested lists of the data frames, to the price frame — whatever references the markets hold
     to each other, whatever the price frame's cell type, the number of threads, the cpu count, the platform and the
     scheduling: if the call completes, its observations are those of the strategies run alone, in the order of the
     strategy list -/
-theorem C19_manager_isolated (env : Env M P) (threads cpu : Nat) (windows ctxSet : Bool) (assign : Nat → Nat) (cfg : M)
+theorem C19_manager_isolated_stateless (env : Env M P) (threads cpu : Nat) (windows ctxSet : Bool) (assign : Nat → Nat) (cfg : M)
     (d : Data C V N P) (strats : List (Strat M C V N P O)) (obs : List O)
     (h : managerRun env (Mode.current true) threads cpu windows ctxSet assign (some cfg) (some d) strats = .done obs) :
     obs = spec cfg d strats := by
@@ -277,7 +286,7 @@ theorem C19_each_strategy_as_alone (env : Env M P) (threads cpu : Nat) (windows 
     (h : managerRun env (Mode.current true) threads cpu windows ctxSet assign (some cfg) (some d) strats = .done obs)
     (i : Nat) (hi : i < strats.length) :
     obs[i]? = some ((strats[i].run cfg d).2.2) := by
-  rw [C19_manager_isolated env threads cpu windows ctxSet assign cfg d strats obs h]
+  rw [C19_manager_isolated_stateless env threads cpu windows ctxSet assign cfg d strats obs h]
   simp [spec, hi]
 
 /-- **order and thread count are immaterial**: two runs of the same strategies in different orders, with different
@@ -287,7 +296,7 @@ theorem C19_order_and_threads_immaterial (env : Env M P) (t1 t2 cpu1 cpu2 : Nat)
     (h1 : managerRun env (Mode.current true) t1 cpu1 w1 c1 as1 (some cfg) (some d) s1 = .done o1)
     (h2 : managerRun env (Mode.current true) t2 cpu2 w2 c2 as2 (some cfg) (some d) s2 = .done o2) :
     o1.Perm o2 := by
-  rw [C19_manager_isolated env t1 cpu1 w1 c1 as1 cfg d s1 o1 h1, C19_manager_isolated env t2 cpu2 w2 c2 as2 cfg d s2 o2 h2]
+  rw [C19_manager_isolated_stateless env t1 cpu1 w1 c1 as1 cfg d s1 o1 h1, C19_manager_isolated_stateless env t2 cpu2 w2 c2 as2 cfg d s2 o2 h2]
   exact hperm.map _
 
 /-- **which copies carry which layer** (the current code makes more than one of them): once `_start` deep-copies the
